@@ -1,7 +1,7 @@
 CONSTANTS
   Ns = {1, 2, 3}
-  Cs = {1, 2, 3}
-  MaxNow = 6
+  Cs = {1, 2}
+  MaxNow = 5
   Steps = {1, 2}
   StrictCool = FALSE
   NoReset = FALSE
